@@ -582,11 +582,26 @@ def rewrite_addr(body):
     return body, n
 
 
+_gen_done = {}
+
+
 def gen_dir(prog):
+    """directory with the generated files of a program; regenerated once per process
+    (atomically: other processes may be compiling from the same directory)"""
     d = os.path.join(BUILD, "gen-%s-%s" % (prog.key, prog.sha))
-    if not os.path.exists(os.path.join(d, "t0n_%s.c" % prog.key)) or os.environ.get("T0TOOL_REGEN"):
+    if d not in _gen_done:
         os.makedirs(d, exist_ok=True)
-        _generate(prog, d)
+        tmp = tempfile.mkdtemp(prefix="gentmp-", dir=BUILD)
+        try:
+            _generate(prog, tmp)
+            for f in os.listdir(tmp):
+                new = open(os.path.join(tmp, f)).read()
+                dst = os.path.join(d, f)
+                if not os.path.exists(dst) or open(dst).read() != new:
+                    os.replace(os.path.join(tmp, f), dst)
+        finally:
+            shutil.rmtree(tmp, ignore_errors=True)
+        _gen_done[d] = True
     return d
 
 
@@ -679,6 +694,18 @@ t0n_exit:
 }
 #endif
 """ % {"base": prog.base, "key": key, "stk": prog.stack_type})
+    o.append("""
+#ifdef T0N_EXPORT
+/* entry point for the translation-validation driver */
+void
+t0e2_%(key)s_exec(void *ctx, unsigned op, uint32_t *dpi, uint32_t *rpi, int *co)
+{
+	t0n_dpi = *dpi; t0n_rpi = *rpi; t0n_co = 0;
+	t0n_%(key)s_dispatch((T0N_CTXT *)ctx, op);
+	*dpi = t0n_dpi; *rpi = t0n_rpi; *co = t0n_co;
+}
+#endif
+""" % {"key": key})
     o.append("\n/* ---- end of E2 part; original definitions restored for the trailing code ---- */\n#undef CTX\n")
     if prog.eng_based:
         o.append("#undef ENG\n")
@@ -751,7 +778,7 @@ def effect_units(prog):
     return []
 
 
-HS_UNITS = ["src/ssl/ssl_engine.c", "src/hash/multihash.c"]
+HS_UNITS = []   # engine / multihash / DRBG are stubbed at the link seam (harness/C05_env_hs.h)
 
 
 def goto_cc_native(prog, op, out, extra_defs=(), units=None):
@@ -770,6 +797,15 @@ def _noeff(op, name, note):
 
 
 def _measure(prog, op, wd, lit=None, timeout=300):
+    e = _measure1(prog, op, wd, lit, timeout, 34)
+    if not e.proved and "unwinding assertion" in (e.note or ""):
+        e2 = _measure1(prog, op, wd, lit, 900, 300)
+        if e2.proved:
+            return e2._replace(note=(e2.note + " | unwind 300").strip(" |"))
+    return e
+
+
+def _measure1(prog, op, wd, lit, timeout, unwind):
     n = prog.natives[op]
     gb = os.path.join(wd, "eff-%s-%d%s.gb" % (prog.key, op, "" if lit is None else "-lit%d" % lit))
     defs = ["-DC05_EFFECT=1"] + (["-DC05_LIT=%d" % lit] if lit is not None else [])
@@ -777,7 +813,7 @@ def _measure(prog, op, wd, lit=None, timeout=300):
     if rc != 0:
         return _noeff(op, n.name, "goto-cc failed: " + (o + e)[-800:])
     try:
-        rc, o, e = sh(["cbmc", gb, "--json-ui", "--no-malloc-may-fail", "--unwind", "34",
+        rc, o, e = sh(["cbmc", gb, "--json-ui", "--no-malloc-may-fail", "--unwind", str(unwind),
                        "--unwinding-assertions", "--drop-unused-functions", "--slice-formula"], timeout=timeout)
     except subprocess.TimeoutExpired:
         return _noeff(op, n.name, "cbmc timeout")
@@ -1432,6 +1468,53 @@ def literal_top_sets(prog):
     return out
 
 
+def over_spec_ok(prog):
+    """the native named `over` copies the second stack entry to the top (same style of proof as dup)"""
+    n = prog.native_by_name("over")
+    if n is None:
+        return False
+    src = open(extract_natives(prog)).read()
+    hk = hashlib.sha1((src + _harness_hash() + hh(prog.repo) + "over").encode()).hexdigest()[:16]
+    cache = os.path.join(BUILD, "overspec-%s-%s.json" % (prog.key, hk))
+    if os.path.exists(cache):
+        return json.load(open(cache))
+    wd = tempfile.mkdtemp(prefix="t0ovr-", dir=BUILD)
+    try:
+        gb = os.path.join(wd, "over.gb")
+        rc, o, e = goto_cc_native(prog, n.op, gb, ["-DC05_EFFECT=1", "-DC05_SPEC_OVER=1"])
+        ok = False
+        if rc == 0:
+            rc, o, e = sh(["cbmc", gb, "--json-ui", "--no-malloc-may-fail", "--unwind", "34", "--unwinding-assertions",
+                           "--drop-unused-functions", "--slice-formula"], timeout=300)
+            try:
+                for m in json.loads(o):
+                    if "result" in m:
+                        ok = any(r.get("description") == "SPEC over" and r.get("status") == "SUCCESS" for r in m["result"])
+            except Exception:
+                ok = False
+        with open(cache, "w") as f:
+            json.dump(ok, f)
+        return ok
+    finally:
+        shutil.rmtree(wd, ignore_errors=True)
+
+
+def addr_zero_or_len_nonzero(prog, op):
+    """for an (addr len) native: at every call site either the length on top is known non-zero
+    (`dup ; jump-if-not` guard) or the address is the literal 0 pushed as `0 over`"""
+    for (wa, k) in prog.call_sites(op):
+        w = prog.words[wa]
+        if top_nonzero_before(prog, wa, k):
+            continue
+        if k >= 2 and w.ins[k].ip not in w.targets() and w.ins[k - 1].ip not in w.targets():
+            p1, p2 = w.ins[k - 1], w.ins[k - 2]
+            v = p2.arg if p2.kind == "const" else (prog.const_words[p2.arg][0] if p2.kind == "call" and p2.arg in prog.const_words else None)
+            if p1.kind == "nat" and prog.natives[p1.arg].name == "over" and v == 0 and over_spec_ok(prog):
+                continue
+        return False
+    return True
+
+
 def gen_preconditions(prog, effects=None):
     """writes t0n_<key>_pre.h into the gen dir; returns a description (for the evidence).
     With effects: also the per-native need/peak (C05_NEED / C05_PEAK for -DOP)"""
@@ -1478,7 +1561,10 @@ def gen_preconditions(prog, effects=None):
                 depth = max(depth, pos + 1, (ext[1] + 1) if isinstance(ext, tuple) else 0)
                 c = "c05_in_region(C05_TOP(%d), %s)" % (pos, e)
                 if len(ent) > 2 and ent[2] == "or0":
-                    c = "(C05_TOP(%d) == 0 || %s)" % (pos, c)
+                    if isinstance(ext, tuple) and addr_zero_or_len_nonzero(prog, n.op):
+                        c = "(C05_TOP(%d) == 0 || (C05_TOP(%d) != 0 && %s))" % (pos, ext[1], c)
+                    else:
+                        c = "(C05_TOP(%d) == 0 || %s)" % (pos, c)
                 conds.append(c)
                 al.append({"operand": pos, "extent": ext if not isinstance(ext, tuple) else "operand %d" % ext[1]})
             desc["address_natives"][n.name] = al
@@ -1492,14 +1578,18 @@ def gen_preconditions(prog, effects=None):
                 o.append("\t\tASSUME(%s);\n" % c)
             o.append("\t\tbreak;\n")
     o.append("\tdefault:\n\t\tbreak;\n\t}\n\t(void)c;\n}\n")
-    with open(os.path.join(d, "t0n_%s_pre.h" % prog.key), "w") as f:
-        f.write("".join(o))
+    pth = os.path.join(d, "t0n_%s_pre.h" % prog.key)
+    txt = "".join(o)
+    if not os.path.exists(pth) or open(pth).read() != txt:
+        with open(pth + ".tmp%d" % os.getpid(), "w") as f:
+            f.write(txt)
+        os.replace(pth + ".tmp%d" % os.getpid(), pth)
     return desc
 
 
 def ensure_pre(prog):
     pth = os.path.join(gen_dir(prog), "t0n_%s_pre.h" % prog.key)
-    if not os.path.exists(pth) or os.environ.get("T0TOOL_REGEN"):
+    if not os.path.exists(pth):
         gen_preconditions(prog)
     return pth
 
@@ -1521,6 +1611,118 @@ def cli_sites(p, rest):
             nl = sum(1 for (w, k) in sites if literal_before(p, w, k) is not None)
             print("   address native %-20s sites=%d with literal top=%d" % (name, len(sites), nl))
     return 0
+
+
+
+# ====================================================================== translation validation of E2
+def hooked_copy(prog):
+    """text of the real generated file with a per-instruction trace hook injected into T0_NEXT
+    (the copy lives in the build directory; /repo is never modified)"""
+    t = prog.text
+    old = re.search(r"^#define T0_NEXT\(t0ipp\)\s+\(pgm_read_byte\(\(\*t0ipp\)\+\+\)\)$", t, re.M)
+    if not old:
+        raise RuntimeError("T0_NEXT definition not recognised in " + prog.path)
+    hook = "t0v_hook_%s" % prog.key
+    new = ("void %s(void *t0ctx, uint32_t *dp, uint32_t *rp, const unsigned char *ip);\n"
+           "#define T0_NEXT(t0ipp)   (%s(t0ctx, dp, rp, *(t0ipp)), pgm_read_byte((*t0ipp)++))") % (hook, hook)
+    return t[:old.start()] + new + t[old.end():]
+
+
+def validate(prog, timeout=1500):
+    """translation validation: returns dict(natives, exercised, agreeing, disagreeing=[names], executions)"""
+    src = open(extract_natives(prog)).read()
+    drv = open(os.path.join(HERE, "t0val_driver.c")).read()
+    hsx = os.path.join(HERE, "t0val_hs.h")
+    if os.path.exists(hsx):
+        drv += open(hsx).read()
+    inputs = hashlib.sha1()
+    for pat in ("test/x509/*", "samples/*"):
+        for f in sorted(glob.glob(os.path.join(prog.repo, pat))):
+            if os.path.isfile(f):
+                inputs.update(f.encode())
+                inputs.update(open(f, "rb").read())
+    hk = hashlib.sha1((src + drv + hh(prog.repo) + open(os.path.join(HERE, "t0n_vm.h")).read() + inputs.hexdigest() + "val-v2").encode()).hexdigest()[:16]
+    cache = os.path.join(BUILD, "validate-%s-%s.json" % (prog.key, hk))
+    if os.path.exists(cache) and not os.environ.get("T0TOOL_REVALIDATE"):
+        return json.load(open(cache))
+    wd = os.path.join(BUILD, "val-%s-%s" % (prog.key, hk))
+    shutil.rmtree(wd, ignore_errors=True)
+    os.makedirs(wd)
+    res = {"program": prog.key, "file": prog.rel, "natives": len(prog.natives), "exercised": 0, "agreeing": 0,
+           "disagreeing": [], "executions": 0, "error": None}
+    try:
+        sys.path.insert(0, ROOT)
+        import verif
+        defs = repo_defs(prog.repo) + ["-DBEARSSL_ESP8266_VERIF"]
+        ar = verif.native_archive("host", defs)
+        cc = ["gcc", "-g", "-O1", "-w", "-fsanitize=address,undefined", "-fno-sanitize-recover=undefined",
+              "-I" + os.path.join(prog.repo, "inc"), "-I" + os.path.join(prog.repo, "src"), "-I" + os.path.join(prog.repo, "samples"),
+              "-I" + HERE] + defs
+        hooked = os.path.join(wd, "hooked_%s.c" % prog.key)
+        with open(hooked, "w") as f:
+            f.write(hooked_copy(prog))
+        steps = [cc + ["-c", hooked, "-o", os.path.join(wd, "hooked.o")],
+                 cc + ["-DT0N_EXPORT=1", "-c", extract_natives(prog), "-o", os.path.join(wd, "e2.o")]]
+        for c in steps:
+            rc, o, e = sh(c, timeout=600)
+            if rc != 0:
+                res["error"] = "compile failed: " + (o + e)[-1500:]
+                return res
+        rc, o, e = sh(["nm", "-g", "--defined-only", os.path.join(wd, "e2.o")])
+        syms = [l.split()[-1] for l in o.splitlines() if l.strip() and not l.split()[-1].startswith("t0e2_")]
+        with open(os.path.join(wd, "redef.txt"), "w") as f:
+            for sname in syms:
+                f.write("%s t0e2x_%s\n" % (sname, sname))
+        rc, o, e = sh(["objcopy", "--redefine-syms=" + os.path.join(wd, "redef.txt"), os.path.join(wd, "e2.o")])
+        if rc != 0:
+            res["error"] = "objcopy failed: " + e[-500:]
+            return res
+        exe = os.path.join(wd, "t0val")
+        rc, o, e = sh(cc + ["-DT0V_KEY_%s=1" % prog.key, "-DT0V_HOOK=t0v_hook_%s" % prog.key, "-DT0V_INTERP=%d" % prog.interp,
+                            os.path.join(HERE, "t0val_driver.c"), os.path.join(wd, "hooked.o"), os.path.join(wd, "e2.o"), ar, "-o", exe], timeout=600)
+        if rc != 0:
+            res["error"] = "link failed: " + (o + e)[-2000:]
+            return res
+        env = dict(os.environ)
+        env["ASAN_OPTIONS"] = "detect_leaks=0"
+        try:
+            rc, o, e = sh([exe, prog.repo], timeout=timeout, env=env)
+        except subprocess.TimeoutExpired:
+            res["error"] = "validation run timed out"
+            return res
+        if rc != 0:
+            res["error"] = "validation driver exit %d: %s" % (rc, (e or o)[-1500:])
+        per = {}
+        for ln in o.splitlines():
+            m = re.match(r"NATIVE (\d+) (\d+) (\d+) (\d+)", ln)
+            if m:
+                op, cnt, ag, bad = [int(x) for x in m.groups()]
+                per[op] = (cnt, ag, bad)
+        res["per_native"] = {prog.natives[op].name: list(v) for op, v in per.items() if op in prog.natives}
+        res["exercised"] = sum(1 for v in per.values() if v[0] > 0)
+        res["agreeing"] = sum(1 for v in per.values() if v[0] > 0 and v[2] == 0)
+        res["disagreeing"] = [prog.natives[op].name for op, v in per.items() if v[2] > 0]
+        res["not_exercised"] = [prog.natives[op].name for op, v in per.items() if v[0] == 0]
+        res["executions"] = sum(v[0] for v in per.values())
+        res["stderr_tail"] = e[-600:] if res["disagreeing"] else ""
+        if res["error"] is None:
+            with open(cache + ".tmp", "w") as f:
+                json.dump(res, f)
+            os.replace(cache + ".tmp", cache)
+        return res
+    finally:
+        if not os.environ.get("T0TOOL_KEEP"):
+            shutil.rmtree(wd, ignore_errors=True)
+
+
+def cli_validate(p, rest):
+    r = validate(p)
+    print("%s: natives=%d exercised=%d agreeing=%d disagreeing=%s executions=%d error=%s" % (
+        p.key, r["natives"], r["exercised"], r["agreeing"], r["disagreeing"], r["executions"], r["error"]))
+    print("   not exercised:", r.get("not_exercised"))
+    if r.get("stderr_tail"):
+        print(r["stderr_tail"])
+    return 1 if (r["error"] or r["disagreeing"]) else 0
 
 
 def cli_layout(p, rest):
